@@ -69,6 +69,19 @@ func genGeneric(prop string, tweak func(g *genCtx), mix Mix) func(seed, run int6
 		if tweak != nil {
 			tweak(g)
 		}
+		mix := mix
+		if g.ft.Huge {
+			// a long, registration-heavy history: dependency graphs with well
+			// over 64 nodes per scope
+			g.ft.MaxOps = g.r.Range(150, 260)
+			mix = Mix{Scope: 1, Provide: 14, Decorate: mix.Decorate, Invoke: 3, VisStr: mix.VisStr}
+			g.ft.NT = 8
+			if len(g.ft.Names) == 0 {
+				g.ft.Names = []string{"n1", "n2"}
+			}
+			g.ft.Objects = true
+			g.ft.PDup = 0.02
+		}
 		if g.ft.Catalog {
 			g.h.Cfg.ValMask, g.h.Cfg.AltMask = 0, 0 // declared functions have fixed Go types
 		}
@@ -503,6 +516,9 @@ func init() {
 			// odd but legal types and names from the malformed grammar reach the labels
 			g.ft.MalRate = []float64{0, 0.05, 0.15}[g.r.Intn(3)]
 			g.ft.VisAfterInvoke = 0.6
+			if g.r.Intn(4) == 0 {
+				g.tmpl = (*genCtx).tmplGroupFailure
+			}
 		}, Mix{Scope: 2, Provide: 12, Decorate: 1, Invoke: 6, VisStr: 6}),
 		Eval: evalSimple("C19", func(c *Checked) bool {
 			return c.Probes["dot_clusters>=3"] > 0 || c.Probes["dot_error_depth>=2"] > 0
